@@ -130,7 +130,9 @@ def smoothers(ctx):
     probs.append(('elasticity-4x4', sp.bsr_array(A, blocksize=(2, 2)), B))
     variants = [('jacobi', {}), ('jacobi', {'degree': 2, 'omega': 1.0}), ('jacobi', {'filter_entries': True}),
                 ('jacobi', {'filter_entries': True, 'degree': 2}), ('jacobi', {'filter_entries': True, 'degree': 3, 'weighting': 'local'}),
-                ('jacobi', {'weighting': 'local'}), ('richardson', {}),
+                ('jacobi', {'weighting': 'local'}), ('richardson', {}), ('richardson', {'degree': 2}), ('richardson', {'degree': 3, 'omega': 1.0}),
+                ('jacobi', {'weighting': 'block'}), ('jacobi', {'weighting': 'block', 'degree': 2}), ('jacobi', {'weighting': 'diagonal', 'degree': 3}),
+                ('jacobi', {'weighting': 'local', 'degree': 2}),
                 ('energy', {'krylov': 'cg', 'maxiter': 2}), ('energy', {'krylov': 'cgnr', 'maxiter': 2}),
                 ('energy', {'krylov': 'gmres', 'maxiter': 3, 'degree': 2}), ('energy', {'krylov': 'cg', 'weighting': 'diagonal'}), None]
     for pname, A, B in probs:
@@ -185,37 +187,52 @@ def smoothers(ctx):
                             ctx.fail('rootnode/identity-rows', 'rows of P at the root nodes are not the identity', cs)
                         if _nn(np.abs(Bf[rows] - Bc).max()) > 1e-12 * scale:
                             ctx.fail('rootnode/coarse-candidates-not-injected', '', cs)
-                # polynomial identity for unconstrained Jacobi / Richardson on level 0
+                # polynomial identity for unconstrained Jacobi / Richardson on level 0:
+                #   P = (I - c K)^degree T,  K = D^-1 A (Jacobi: D = diagonal / block diagonal / |row sums|) or K = A
+                #   (Richardson), c = omega / rho_estimate(K)  (c = omega for weighting 'local').  The routine divides by an
+                #   ESTIMATE of the spectral radius, so c is recovered by a one-dimensional fit and must lie in
+                #   [omega/rho, omega/(0.85 rho)]; the fitted polynomial must then reproduce P to rounding.
                 if sm is not None and sm[0] in ('jacobi', 'richardson') and not sm[1].get('filter_entries') and len(ml.levels) > 1:
                     L = ml.levels[0]
-                    Ad, T = L.A.toarray(), L.T.toarray()
+                    Ad, T, Pd = L.A.toarray(), L.T.toarray(), L.P.toarray()
                     deg = sm[1].get('degree', 1)
                     om = sm[1].get('omega', 4.0 / 3.0)
-                    if sm[0] == 'jacobi':
-                        if sm[1].get('weighting') == 'local':
-                            D = np.abs(Ad).sum(1)
-                            DinvA = Ad / D[:, None] * om
-                        elif A.format == 'bsr':
-                            continue
-                        else:
-                            DinvA = Ad / np.diag(Ad)[:, None]
-                            DinvA = DinvA * (om / max(abs(np.linalg.eigvals(DinvA))))
-                        # the routine divides by an ESTIMATE of the spectral radius: recover the scalar actually used
-                        Pd = L.P.toarray()
-                        X = np.eye(Ad.shape[0]) - DinvA
-                        want = np.linalg.matrix_power(X, deg) @ T
-                        if sm[1].get('weighting') == 'local':
-                            if _nn(np.abs(Pd - want).max()) > 1e-10:
-                                ctx.fail('smoothing/jacobi/not-polynomial', '|P - (I - w D^-1 A)^d T| = %.3g' % np.abs(Pd - want).max(), case)
-                        else:
-                            # P = (I - c D^-1 A)^d T for SOME scalar c close to omega/rho: fit c on degree 1
-                            if deg == 1:
-                                DA = (Ad / np.diag(Ad)[:, None]) @ T
-                                num = np.vdot(DA, T - Pd)
-                                c = num / np.vdot(DA, DA)
-                                rho = max(abs(np.linalg.eigvals(Ad / np.diag(Ad)[:, None])))
-                                if _nn(np.abs(Pd - (T - c * DA)).max()) > 1e-10 or not (om / rho * 0.99 <= c.real <= om / (0.85 * rho)):
-                                    ctx.fail('smoothing/jacobi/not-polynomial', 'P is not T - c D^-1 A T with c ~ omega/rho (c=%r)' % c, case)
+                    nfull = Ad.shape[0]
+                    bsz = L.A.blocksize[0] if sp.issparse(L.A) and L.A.format == 'bsr' else 1
+                    wt = sm[1].get('weighting', 'diagonal')
+                    if sm[0] == 'richardson':
+                        K = Ad
+                    elif wt == 'local':
+                        K = Ad / np.abs(Ad).sum(1)[:, None]
+                    elif wt == 'block':
+                        Dinv = np.zeros_like(Ad)
+                        for k in range(nfull // bsz):
+                            sl = slice(k * bsz, (k + 1) * bsz)
+                            Dinv[sl, sl] = np.linalg.inv(Ad[sl, sl])
+                        K = Dinv @ Ad
+                    else:
+                        K = Ad / np.diag(Ad)[:, None]
+                    I_ = np.eye(nfull)
+
+                    def poly(c):
+                        return np.linalg.matrix_power(I_ - c * K, deg) @ T
+                    if sm[0] == 'jacobi' and wt == 'local':
+                        cfit, lo, hi = om, om, om
+                    else:
+                        rho = max(abs(np.linalg.eigvals(K)))
+                        lo, hi = om / rho * 0.99, om / (0.85 * rho)
+                        from scipy.optimize import minimize_scalar
+                        cfit = minimize_scalar(lambda c: np.linalg.norm(Pd - poly(c)), bounds=(0.5 * lo, 1.5 * hi), method='bounded',
+                                               options=dict(xatol=1e-14)).x
+                        if deg == 1:
+                            KT = K @ T
+                            cfit = (np.vdot(KT, T - Pd) / np.vdot(KT, KT)).real
+                    err = np.abs(Pd - poly(cfit)).max()
+                    ctx.count('polynomial:%s/%s/deg%d/%s' % (sm[0], wt if sm[0] == 'jacobi' else '-', deg, 'bsr' if bsz > 1 else 'csr'))
+                    if _nn(err) > 1e-8 * (1 + np.abs(Pd).max()) or not (lo * (1 - 1e-9) <= cfit <= hi * (1 + 1e-9)):
+                        ctx.fail('smoothing/%s/not-polynomial' % sm[0],
+                                 'P is not (I - c K)^%d T with c in [omega/rho, omega/(0.85 rho)]: best c = %.6g (allowed %.6g..%.6g), |P - poly| = %.3g'
+                                 % (deg, cfit, lo, hi, err), case)
 
 
 def search(ctx):
